@@ -402,11 +402,100 @@ def case_astronomical(ctx, rseed):
         ctx.judged(("astro", "kxor", k, n, m), nontrivial=True, sample={"call": label})
 
 
+def case_word_boundaries(ctx, family, exps, rseed):
+    """(k, n) chosen so that the number of clauses / parities on n variables sits just below, at and inside the
+    window above 2^e for the machine-word sizes e (a universe numbered with a C integer, a `range`, a float mantissa):
+    requests for a few of them are ordinary feasible requests."""
+    import math
+    import cnfgen.families.randomformulas as rf
+    import cnfgen.families.randomkxor as rx
+    r = ctx.rng("c13words", family, tuple(exps), rseed)
+    size = (lambda k, n: math.comb(n, k) * 2 ** k) if family == "kcnf" else (lambda k, n: 2 * math.comb(n, k))
+    fn = rf.RandomKCNF if family == "kcnf" else rx.RandomKXOR
+    for e in exps:
+        T = 1 << e
+        for k in (1, 2, 3, 4, 10):
+            # smallest n whose universe reaches T
+            lo, hi = k, max(k + 1, 4)
+            while size(k, hi) < T:
+                hi *= 2
+            while lo < hi:
+                mid = (lo + hi) // 2
+                if size(k, mid) >= T:
+                    hi = mid
+                else:
+                    lo = mid + 1
+            first = lo
+            # largest n still inside [T, 2T)
+            lo2, hi2 = first, first * 2 + 2
+            while size(k, hi2) < 2 * T:
+                hi2 *= 2
+            while lo2 < hi2:
+                mid = (lo2 + hi2) // 2
+                if size(k, mid) >= 2 * T:
+                    hi2 = mid
+                else:
+                    lo2 = mid + 1
+            last = lo2 - 1
+            ns = sorted({first - 1, first, (first + max(first, last)) // 2, max(first, last), last + 1} - {0})
+            for n in ns:
+                if n < k or n > 2 ** 62:
+                    continue
+                if k * 3 > 40 and family == "kxor":
+                    continue
+                m = r.choice((0, 1, 3, 6))
+                if family == "kxor" and m * 2 ** (k - 1) > 4000:
+                    m = 1
+                seed = r.randint(0, 10 ** 6)
+                label = "%s(k=%d,n=%d,m=%d,seed=%d) [universe %s 2^%d]" % (
+                    "RandomKCNF" if family == "kcnf" else "RandomKXOR", k, n, m, seed,
+                    "below" if size(k, n) < T else ("at least 2^%d, beyond" % (e + 1) if size(k, n) >= 2 * T else "within a factor two above"), e)
+                st, F = ctx.call(fn, k, n, m, seed=seed)
+                ctx.count("universes_at_word_boundaries")
+                if st == "exc":
+                    ctx.violation("rand%s:%s" % (family, "refuses-feasible" if isinstance(F, ValueError) else "raises:" + type(F).__name__),
+                                  "%s raised %r" % (label, F))
+                elif family == "kcnf":
+                    check_kcnf(ctx, F, k, n, m, [], label)
+                elif len(F) != m * 2 ** (k - 1) or F.number_of_variables() != n or any(len({abs(l) for l in c}) != k for c in F):
+                    ctx.violation("randkxor:shape", "%s: %d clauses / %d variables" % (label, len(F), F.number_of_variables()))
+                ctx.judged(("words", family, k, n, m), nontrivial=True, sample={"call": label})
+
+
+def case_many_planted(ctx, k, n, m, t, rseed):
+    """Many planted assignments on a large universe: almost every sampled clause is falsified by one of them, the
+    quick sampling phase gives up, and still thousands of compatible clauses exist -- a feasible request."""
+    import cnfgen.families.randomformulas as rf
+    r = ctx.rng("c13planted", k, n, m, t, rseed)
+    planted = [[v if r.random() < 0.5 else -v for v in range(1, n + 1)] for _ in range(t)]
+    seed = r.randint(0, 10 ** 6)
+    label = "RandomKCNF(k=%d,n=%d,m=%d,seed=%d, %d random planted assignments)" % (k, n, m, seed, t)
+    st, F = ctx.call(rf.RandomKCNF, k, n, m, seed=seed, planted_assignments=[list(p) for p in planted])
+    ctx.count("requests_with_many_planted_assignments")
+    if st == "exc":
+        ctx.violation("randkcnf:%s" % ("refuses-feasible" if isinstance(F, ValueError) else "raises:" + type(F).__name__),
+                      "%s raised %r although about %.0f clauses are compatible with all of them"
+                      % (label, F, (1 - 2.0 ** -k) ** t * 2 ** k * __import__("math").comb(n, k)))
+    else:
+        check_kcnf(ctx, F, k, n, m, planted, label)
+    ctx.judged(("many-planted", k, n, m, t), nontrivial=True, sample={"call": label})
+
+
 def workload(tier, seed):
     import math
     if tier != "quick":
         yield "dense_big_universe", {"rseed": seed}      # minutes: the dense sampler walks through 10^7 parities
+    # the slow ones first: the fall-back of the sampler walks through the whole universe and tests every clause against
+    # every planted assignment (10^7 clauses x 30 assignments: five minutes) -- thorough tier only
+    if tier != "quick":
+        yield "many_planted", {"k": 3, "n": 200, "m": 40, "t": 30, "rseed": seed}
+        yield "many_planted", {"k": 3, "n": 120, "m": 30, "t": 28, "rseed": seed}
+    for (k, n, m, t) in ((3, 30, 20, 25), (3, 60, 30, 25), (2, 300, 20, 10), (4, 40, 20, 38)):
+        yield "many_planted", {"k": k, "n": n, "m": m, "t": t, "rseed": seed}
     yield "astronomical", {"rseed": seed}
+    for family in ("kcnf", "kxor"):
+        for exps in ([31, 32], [53, 63], [64, 65]) if tier == "quick" else ([15, 16], [24, 31], [32, 33], [52, 53], [62, 63], [64, 65], [127, 128]):
+            yield "word_boundaries", {"family": family, "exps": exps, "rseed": seed}
     sweep = list(range(1 + seed % 4, 330, 4)) if tier == "quick" else list(range(1, 700))
     for i in range(0, len(sweep), 20):
         yield "size_sweep", {"sizes": sweep[i:i + 20], "rseed": seed}
